@@ -17,4 +17,15 @@ for id in $ids; do
   if [ "${nv:-0}" -gt 0 ]; then echo "$id $prop DETECTED ($res)" >> $OUT.tmp; else echo "$id $prop NOT-DETECTED ($res)" >> $OUT.tmp; fi
 done
 (cd /verif/harness && cargo build --release --offline > /dev/null 2>&1)
-mv $OUT.tmp $OUT
+# merge with the results of earlier runs (one line per seed, newest wins)
+python3 - "$OUT" "$OUT.tmp" <<'PY'
+import sys,os
+old,new=sys.argv[1],sys.argv[2]
+d={}
+for f in (old,new):
+    if os.path.exists(f):
+        for l in open(f):
+            if l.strip(): d[l.split()[0]]=l.rstrip("\n")
+open(old,"w").write("\n".join(d[k] for k in sorted(d))+"\n")
+os.remove(new)
+PY
